@@ -73,9 +73,16 @@ struct Outcome {
   bool have_counters = false;
   unsigned kinds_of_events = 0;
   uint64_t faults_delivered = 0, fault_points = 0, length_errors = 0;
-  uint64_t growth[4] = {}, shrinks[4] = {}, splits = 0, scans = 0, scan_visits = 0, views_checked = 0, aliased_bounds = 0;
+  uint64_t growth[4] = {}, shrinks[4] = {}, splits = 0, scans = 0, scan_visits = 0, views_checked = 0, aliased_bounds = 0, look_modify_look = 0;
   bool reached_nonrep = false;
 };
+
+// "is the key there?" the way callers write it: a small free function around get() that returns a scalar. With a lookup that
+// the compiler may treat as independent of the index contents, calls of this helper with equal arguments are merged.
+template <int DbKind, class Db, class K>
+[[gnu::noinline]] bool key_present_in(const Db& d, K k) {
+  if constexpr (DbKind == 1) return d.get(k).first.has_value(); else return d.get(k).has_value();
+}
 
 template <class Db>
 struct Runner {
@@ -188,6 +195,36 @@ struct Runner {
   bool do_remove(const std::string& key) {
     const KeyBuf kb(key);
     return db->remove(kb.key());
+  }
+
+  // get / modify / get / modify back / get on ONE key in straight-line code, the way callers write "look, change, look
+  // again": the three lookups have identical arguments, so anything that lets the compiler treat a lookup as independent of
+  // the index contents (a purity attribute that is too strong, a cached result) merges them. Leaves the key set as it was.
+  void look_modify_look(int g, const Op& o) {
+    const bool present = model.count(o.key) != 0;
+    for (auto& v : views) if (v.key == o.key) return;
+    if constexpr (std::is_same_v<Key, unodb::key_view>) {
+      if (nonrep_fd >= 0) return;
+      auto m2 = model;
+      if (present) m2.erase(o.key); else m2[o.key];
+      if (!shape_of_map(m2).representable) return;
+    }
+    const std::string val = present ? model[o.key] : make_value(0x7e57, 9);
+    const unodb::value_view vv{reinterpret_cast<const std::byte*>(val.data()), val.size()};
+    const KeyBuf kb(o.key);
+    const Key k = kb.key();
+    auto& d = *db;  // one address for all five calls (this->db would be reloaded after every modifying call)
+    const bool a = key_present_in<kind>(d, k);
+    const bool m1 = present ? d.remove(k) : d.insert(k, vv);
+    const bool b = key_present_in<kind>(d, k);
+    const bool m2 = present ? d.insert(k, vv) : d.remove(k);
+    const bool c = key_present_in<kind>(d, k);
+    trace.add(a); trace.add(m1); trace.add(b); trace.add(m2); trace.add(c);
+    out.look_modify_look++;
+    if (a != present || !m1 || b == present || !m2 || c != present)
+      die("get-result", opname(g, o) + ": get / " + (present ? "remove" : "insert") + " / get / " + (present ? "insert" : "remove") + " / get on one key returned " +
+          (a ? "found" : "missed") + " / " + (m1 ? "true" : "false") + " / " + (b ? "found" : "missed") + " / " + (m2 ? "true" : "false") + " / " + (c ? "found" : "missed") +
+          ", the map model says the key was " + (present ? "present" : "absent") + " to begin with");
   }
 
   struct ScanOut { std::vector<std::pair<std::string, std::string>> kv; int calls_after_halt = 0; };
@@ -379,6 +416,7 @@ struct Runner {
         break;
       }
       case S_GET: {
+        if ((o.c & 4) != 0 && (focus == 1 || focus == 16)) look_modify_look(g, o);
         auto r = do_get(o.key, me, hold_views && views.size() < 24);
         auto it = model.find(o.key);
         if (r.has_value() != (it != model.end()))
@@ -619,6 +657,9 @@ struct Runner {
           for (int k = 1; k < 16 && !queued; k++) {
             const Snapshot before = snapshot();
             const bool cur_empty = me.current_interval_requests_empty(), prev_empty = me.previous_interval_requests_empty();
+#ifdef UNODB_DETAIL_WITH_STATS
+            const std::size_t pending_bytes = me.get_current_interval_total_dealloc_size();
+#endif
             out.fault_points++;
             arm_alloc_fault(k, true);
             bool threw = false;
@@ -640,6 +681,11 @@ struct Runner {
                                               std::to_string(me.current_interval_requests_empty()) + ", previous empty " + std::to_string(prev_empty) + " -> " + std::to_string(me.previous_interval_requests_empty()) + ")");
               if (now.qsbr_prev_empty != before.qsbr_prev_empty || now.qsbr_cur_empty != before.qsbr_cur_empty || now.threads != before.threads)
                 die("fault-qsbr-changed", "on_next_epoch_deallocate threw but the global QSBR state changed");
+#ifdef UNODB_DETAIL_WITH_STATS
+              if (me.get_current_interval_total_dealloc_size() != pending_bytes)
+                die("fault-stats-changed", "on_next_epoch_deallocate threw (allocation #" + std::to_string(k) + ") but the thread's current-interval deallocation size went from " +
+                                               std::to_string(pending_bytes) + " to " + std::to_string(me.get_current_interval_total_dealloc_size()) + " bytes");
+#endif
             } else {
               if (fired) die("fault-swallowed", "on_next_epoch_deallocate: allocation failed but no exception reached the caller");
               queued = true;
@@ -654,6 +700,10 @@ struct Runner {
         me.quiescent();
         if (!me.current_interval_requests_empty() || !me.previous_interval_requests_empty())
           die("fault-qsbr-changed", "requests still pending after the drain that follows the faulted deferred-deallocation requests");
+#ifdef UNODB_DETAIL_WITH_STATS
+        if (me.get_current_interval_total_dealloc_size() != 0)
+          die("fault-stats-changed", "nothing is pending after the drain, but the thread's current-interval deallocation size is " + std::to_string(me.get_current_interval_total_dealloc_size()) + " bytes");
+#endif
       }
     }
   }
